@@ -204,11 +204,21 @@ def _thm_sampler(t, rng):
     sig = inspect.signature(t.fn)
     dom = getattr(t.fn, "domain", {})
     out = {}
-    for name, p in sig.parameters.items():
-        kind = t.params.get(name, p.annotation if p.annotation is not inspect.Parameter.empty else "real")
+    names = [(n, p.annotation if p.annotation is not inspect.Parameter.empty else "real") for n, p in sig.parameters.items()
+             if p.kind not in (inspect.Parameter.VAR_KEYWORD, inspect.Parameter.VAR_POSITIONAL)]
+    names += [(n, None) for n in t.params if n not in sig.parameters]           # the entries of a **kwargs theorem
+    for name, ann in names:
+        kind = t.params.get(name, ann)
+        if getattr(kind, "tag", None) == "const":
+            out[name] = kind.kw["value"] if hasattr(kind, "kw") else getattr(kind, "value", None)
+            continue
+        if callable(kind) and hasattr(kind, "sample"):
+            out[name] = kind.sample(rng)              # a kind that knows how to draw a concrete value (e.g. datetimes)
+            continue
         lo, hi = dom.get(name, (-5.0, 5.0))
         if kind in ("real", "posreal"):
-            v = rng.choice([0.0, 0.5, 1.0, 0.25]) if rng.random() < 0.15 else rng.uniform(lo, hi)
+            special = [x for x in (0.0, 0.5, 1.0, 0.25) if lo <= x <= hi]        # (special values only inside the stated domain)
+            v = rng.choice(special) if special and rng.random() < 0.15 else rng.uniform(lo, hi)
             out[name] = abs(v) + 1e-3 if kind == "posreal" else v
         elif kind in ("int", "nat"):
             v = rng.randint(int(lo), int(hi))
@@ -354,6 +364,52 @@ def write_ledger(prop):
     return 0
 
 
+def _rehash_ledger_functions(functions):
+    """labels 'module:Qual.name' of the ledger whose current source hashes differently.  Only labels that can be resolved
+    unambiguously count (properties: any of getter / setter / deleter may be the one recorded; private names are mangled;
+    decorated functions are unwrapped); what cannot be resolved is left to the hashes taken when the run reaches it."""
+    import importlib
+    import inspect as _inspect
+    from .interp import FuncSrc as _FS
+    out = set()
+    for label, sha in functions.items():
+        try:
+            modname, qual = label.split(":")
+            obj = importlib.import_module(modname)
+            parts = qual.split(".")
+            if "<locals>" in parts:
+                continue
+            owner = None
+            for part in parts:
+                if isinstance(obj, type) and part.startswith("__") and not part.endswith("__"):
+                    part = "_%s%s" % (obj.__name__.lstrip("_"), part)
+                owner = obj
+                obj = _inspect.getattr_static(obj, part) if isinstance(obj, type) else getattr(obj, part)
+            cands = []
+            if isinstance(obj, property):
+                cands = [f for f in (obj.fget, obj.fset, obj.fdel) if f is not None]
+            else:
+                f = obj
+                if isinstance(f, (staticmethod, classmethod)):
+                    f = f.__func__
+                seen = 0
+                while f is not None and seen < 5:
+                    cands.append(f)
+                    f = getattr(f, "__wrapped__", None)
+                    seen += 1
+            hashes = set()
+            for f in cands:
+                try:
+                    hashes.add(_FS.get(f).sha256)
+                except Exception:
+                    pass
+            if hashes and sha not in hashes:
+                out.add(label)
+        except Exception:
+            continue
+    return out
+
+
 # ----------------------------------------------------------------------------
 def run_property(prop, tier, seed, verbose=False, write_evidence=True):
     t0 = time.time()
@@ -375,6 +431,9 @@ def run_property(prop, tier, seed, verbose=False, write_evidence=True):
 
     changed = {f["function"] for f in run.functions
                if ledger.get("functions", {}).get(f["function"]) not in (None, f["sha256"])}
+    # every function of the ledger is also re-hashed directly from the working tree: an edit that makes the engine stop
+    # BEFORE it has recorded the function it was reading must still count as 'the code changed'
+    changed |= _rehash_ledger_functions(ledger.get("functions", {}))
     code_changed = bool(changed)
 
     status = 0
